@@ -64,7 +64,12 @@ let handle (x : sexp) : (string * string) list =
       if status = "panic" then add "mismatch" "corr:C02/panic model=ok impl=panic"
       else begin
         let mdata = string_of_bytes r.r_data in
-        if mdata <> idata then add "mismatch" (Printf.sprintf "corr:C02/data model=%s impl=%s" (quote_string mdata) (quote_string idata));
+        (* After a print-walk error (unreachable inside plan_wf by resolve_refines_complete) the real walkArray
+           also writes a null into the data while printing; the model's print walk is pure, so past that point
+           the bytes are not tied.  Only plans outside plan_wf (overlap stream) get there, and the output is
+           not JSON then (reported as render_valid_json). *)
+        let untied = (not (sbool valid)) && not (root_wf root) in
+        if (not untied) && mdata <> idata then add "mismatch" (Printf.sprintf "corr:C02/data model=%s impl=%s" (quote_string mdata) (quote_string idata));
         let merrs = String.concat " " (List.map show_err r.r_errors) in
         let ierrs' = String.concat " " (List.map print_sexp ierrs) in
         if merrs <> ierrs' then add "mismatch" (Printf.sprintf "corr:C02/errors model=[%s] impl=[%s]" merrs ierrs')
